@@ -2,6 +2,19 @@
 
 /// position of the top variable of p (terminals come after every variable)
 pub open spec fn top(p: BddPtr, o: VarOrder) -> int { o.opos(p.var_s()) }
+pub proof fn lemma_height_neg(p: BddPtr)
+    ensures height(p.neg_s()) == height(p),
+{}
+/// height of a diagram (termination measure of the recursive builder functions)
+pub open spec fn height(p: BddPtr) -> nat
+    decreases p
+{
+    match p {
+        BddPtr::Reg(n) => 1 + (if height(n.low) >= height(n.high) { height(n.low) } else { height(n.high) }),
+        BddPtr::Compl(n) => 1 + (if height(n.low) >= height(n.high) { height(n.low) } else { height(n.high) }),
+        _ => 0,
+    }
+}
 pub open spec fn min3(a: int, b: int, c: int) -> int { if a <= b && a <= c { a } else if b <= c { b } else { c } }
 
 /// the top variable of p comes strictly after position k in the order
